@@ -78,6 +78,10 @@ def gen_sources(r):
             pool.append(_corpus[r.randrange(len(_corpus))])
         else:
             syms = [simreader.ALPHABET[r.randrange(len(simreader.ALPHABET))] for _ in range(r.randrange(1, 6))]
+            if r.random() < 0.15:
+                # a document with a special first character (byte order mark, NUL, ...)
+                syms = [simreader.ALPHABET_CHARS[r.randrange(len(simreader.ALPHABET_CHARS))]] + \
+                    [docgen.generate(r, size=r.randrange(2, 6)).text]
             pool.append(''.join(syms))
     return pool
 
